@@ -101,6 +101,9 @@ def _compile(src, flags):
 
 def build(name, harness_srcs, groups, extra_flags=(), libs=()):
     """compile + link; returns path of the executable."""
+    if os.environ.get("VERIF_COVERAGE"):   # tools/coverage.py: line coverage of /repo sources reached by a check's harness
+        extra_flags = list(extra_flags) + ["--coverage", "-O0"]
+        libs = list(libs) + ["--coverage"]
     flags = BASE_FLAGS + list(extra_flags)
     srcs = [os.path.join(VERIF, "harness", s) for s in harness_srcs]
     for g in groups:
